@@ -12,9 +12,8 @@ Property theorems only (model: `Model/Google.lean`; helper lemmas: `Lemmas/Googl
   checks on every run that the real functions raise nothing either.
 * `parse_google_drive_url` indexes `path[0] … path[3]`, `path[-1]`: `parse_google_drive_url_total`.
 * `record_valid`: drive type in `DRIVE_TYPES`, id a non-empty path segment.
-* round trip: `reparse_url_public_link` (full), `reparse_url_file_partial` (hypothesis: the id
-  does not end with white space; `fullReparse_false` shows the hypothesis cannot be dropped —
-  known finding KF-C19-YT-2).
+* round trip: `reparse_url` (full, both record types: `reparse_url_public_link`,
+  `reparse_url_file` — the file id is stripped by the parser since d47b8e8).
 -/
 namespace Ural.Props.C19.Google
 open Ural Ural.Py Ural.C19 Ural.Google
@@ -88,7 +87,7 @@ example :
 /-- **a returned record is well formed**: its type is one of `DRIVE_TYPES`, its id is a
 non-empty path segment (no `/`, `?`, `#`, TAB, CR, LF) -/
 theorem record_valid (url : Str) (r : Record) (h : parse_google_drive_url url = .ok (some r)) :
-    r.ty ∈ driveTypes ∧ r.ident ≠ [] ∧ Seg r.ident :=
+    r.ty ∈ driveTypes ∧ r.ident ≠ [] ∧ Seg r.ident ∧ (∀ ty id, r = .file ty id → Stripped id) :=
   record_wf url r h
 
 example : parse_google_drive_url "docs.google.com/document/d//edit".toList = .ok none := by decide +kernel
@@ -99,7 +98,7 @@ example : parse_google_drive_url "docs.google.com/document/d//edit".toList = .ok
 theorem reparse_url_public_link (url ty id : Str)
     (h : parse_google_drive_url url = .ok (some (.publicLink ty id))) :
     parse_google_drive_url (Record.url (.publicLink ty id)) = .ok (some (.publicLink ty id)) := by
-  obtain ⟨hty, hne, hseg⟩ := record_wf url _ h
+  obtain ⟨hty, hne, hseg, _⟩ := record_wf url _ h
   simp only [Record.ty, Record.ident] at hty hne hseg
   obtain ⟨htne, htseg⟩ := drive_types_plain ty hty
   have := parse_docs_url [ty, ['d'], ['e'], id, "pub".toList] (by simp)
@@ -117,18 +116,14 @@ theorem reparse_url_public_link (url ty id : Str)
   rw [url_publicLink_eq, this, parsePath4]
   simp [hty, hne]
 
-/-- the full statement for files -/
-def FullReparseFile : Prop :=
-  ∀ url ty id, parse_google_drive_url url = .ok (some (.file ty id)) →
-    parse_google_drive_url (Record.url (.file ty id)) = .ok (some (.file ty id))
-
-/-- **re-parsing the url of a file gives the same file**, when the id does not end with white
-space (the id is the *last* segment of `record.url`, and `pathsplit` strips the path) -/
-theorem reparse_url_file_partial (url ty id : Str)
-    (h : parse_google_drive_url url = .ok (some (.file ty id))) (hb : NoTrailingBlank id) :
+/-- **re-parsing the url of a file gives the same file** — for every url (the id is stripped by
+the parser since d47b8e8, so nothing is lost at the end of `record.url`) -/
+theorem reparse_url_file (url ty id : Str)
+    (h : parse_google_drive_url url = .ok (some (.file ty id))) :
     parse_google_drive_url (Record.url (.file ty id)) = .ok (some (.file ty id)) := by
-  obtain ⟨hty, hne, hseg⟩ := record_wf url _ h
+  obtain ⟨hty, hne, hseg, hst⟩ := record_wf url _ h
   simp only [Record.ty, Record.ident] at hty hne hseg
+  have hs : Stripped id := hst ty id rfl
   obtain ⟨htne, htseg⟩ := drive_types_plain ty hty
   have := parse_docs_url [ty, ['d'], id] (by simp)
     (by
@@ -139,27 +134,27 @@ theorem reparse_url_file_partial (url ty id : Str)
       · decide
       · exact ⟨hne, hseg⟩)
     (by intro x hx; have : x = id := by simpa using hx.symm
-        rw [this]; exact hb)
-  rw [url_file_eq, this, parsePath3]
+        rw [this]; exact hs.2)
+  rw [url_file_eq, this, parsePath3, strip_of_stripped id hs]
   simp [hty, hne]
 
-/-- the hypothesis cannot be dropped: `docs.google.com/document/d/x /edit` parses to the file
-`x␠`, whose url parses to the file `x` (known finding KF-C19-YT-2) -/
-theorem fullReparseFile_false : ¬ FullReparseFile := by
-  intro h
-  have h1 : parse_google_drive_url "docs.google.com/document/d/x /edit".toList =
-      .ok (some (.file "document".toList "x ".toList)) := by decide +kernel
-  have h2 := h _ _ _ h1
-  have h3 : parse_google_drive_url (Record.url (.file "document".toList "x ".toList)) =
-      .ok (some (.file "document".toList "x".toList)) := by decide +kernel
-  rw [h3] at h2
-  exact absurd h2 (by decide)
+/-- **re-parsing `record.url` gives the same record**, for every url and both record types -/
+theorem reparse_url (url : Str) (r : Record) (h : parse_google_drive_url url = .ok (some r)) :
+    parse_google_drive_url r.url = .ok (some r) := by
+  cases r with
+  | file ty id => exact reparse_url_file url ty id h
+  | publicLink ty id => exact reparse_url_public_link url ty id h
+
+/-- the repaired shape: the trailing blank of `x␠` is not part of the id any more -/
+example :
+    parse_google_drive_url "docs.google.com/document/d/x /edit".toList =
+      .ok (some (.file "document".toList "x".toList)) ∧
+    parse_google_drive_url "docs.google.com/document/d/ /edit".toList = .ok none := by decide +kernel
 
 /-- non-vacuity: a file and a public link that round-trip -/
 example :
     parse_google_drive_url "https://docs.google.com/spreadsheets/d/1Bxi_MVs/edit#gid=0".toList =
       .ok (some (.file "spreadsheets".toList "1Bxi_MVs".toList)) ∧
-    NoTrailingBlank "1Bxi_MVs".toList ∧
     parse_google_drive_url (Record.url (.file "spreadsheets".toList "1Bxi_MVs".toList)) =
       .ok (some (.file "spreadsheets".toList "1Bxi_MVs".toList)) := by decide +kernel
 
